@@ -101,13 +101,13 @@ pub fn write_shards(dir: &Path, module: &str, runner: &str, cases: &[String], sh
         let mut out = String::new();
         out.push_str("From IweV Require Import Str Harness ");
         out.push_str(module);
-        out.push_str(".\nOpen Scope string_scope. Open Scope N_scope. Set Printing Width 200.\n");
+        out.push_str(".\nOpen Scope string_scope. Open Scope list_scope. Set Printing Width 200.\n");
         out.push_str("Definition cases := [\n");
         for (i, c) in cases[lo..hi].iter().enumerate() {
             if i > 0 {
                 out.push_str(";\n");
             }
-            let _ = write!(out, "({}, {})", lo + i, c);
+            let _ = write!(out, "({}%N, {})", lo + i, c);
         }
         out.push_str("\n].\n");
         let _ = write!(out, "Eval vm_compute in (report ({}) cases).\n", runner);
